@@ -358,6 +358,9 @@ AllowedCtx(st, s) ==
   /\ s \in EndSyms => st.ctx # <<>> /\ Top(st).k = "env" /\ Top(st).last = EnvOf(s)
   /\ s = "it" => st.ctx # <<>> /\ Top(st).k = "env" /\ Top(st).last \in {"itemize","enumerate"}
   /\ s \in {"fn","cap"} => ~InKind(st, "fn")            \* nested detached flows: order not documented
+  \* (a detached flow inside the argument of a user macro is extracted as often as the body uses the argument;
+  \*  the reference substitution does not duplicate flows: not generated)
+  /\ s \in {"fn", "cap", "capo", "fct"} => ~InKind(st, "marg") /\ ~InKind(st, "mopt")
   /\ s \in {"skb"} => st.ctx = <<>>                        \* skip regions at top level only
   /\ s \in {"sec","sub"} => ~InKind(st, "sec")
   /\ s \in BeginSyms \cup {"par", "vrb", "vrb2"} => ~InKind(st, "sec") /\ ~InKind(st, "arg") /\ ~InKind(st, "fn")
